@@ -122,7 +122,7 @@ def corpus_file(ctx):
     d = os.path.join(vlib.VERIF, "corpus", "C03")
     srcs = []
     names = []
-    for p in sorted(glob.glob(os.path.join(d, "*.aelys"))):
+    for p in sorted(glob.glob(os.path.join(d, "*.aelys")) + glob.glob(os.path.join(d, "*.aasm"))):
         srcs.append(open(p).read().rstrip("\n"))
         names.append(os.path.basename(p))
     if ctx.replay_file:
@@ -379,7 +379,11 @@ def run(ctx):
     ctx.cov["model_tie_heaps"] = tot_dumps
     ctx.cov["schedule_stats"] = stats
     ctx.cov["input_distribution"] = (
-        "corpus/C03/*.aelys first; then seeded programs in 5 classes round-robin: plain (top-level string building in loops, "
+        "corpus/C03/*.aelys and *.aasm first; every 13th generated program is a SESSION (several inputs on one VM, the second "
+        "one fails 2-5 frames below a function whose local was captured by a closure that escaped through an array/Vec/global; "
+        "then allocations; then the closure is called); every 13th is an ASSEMBLY program run through the real assembler "
+        "(TailCallUpval from a 3-4 register closure into a 7-12 register function holding a fresh string in a high register "
+        "across 2-6 allocating loop rounds); the others are seeded source programs in 6 classes round-robin: plain (top-level string building in loops, "
         "Array/Vec of strings, vec growth, pop), fnargs (recursion building nested Vecs, loops in functions without heap "
         "constants), nested (functions with string literals, nested 1 and 2 levels), closure (captured strings/counters/vectors, "
         "closures returned, stored in a Vec and called, two-level closures; half of these programs have no heap constant inside "
